@@ -236,3 +236,19 @@ Proof.
   { unfold flatten. rewrite Fo. reflexivity. }
   exists o'. split; [apply (unflatten_flatten c o' _ _ Wo Hfl) | exact Hfl].
 Qed.
+
+(* the same, also saying that the rebuilt tree is well-formed *)
+Theorem flatten_unflatten_replace_wf c o ls sp ls' :
+  c_pred c = None -> wf_obj o = true -> flatten c o = Ok (ls, sp) ->
+  length ls' = length ls -> forallb (leaflike c) ls' = true ->
+  exists o', wf_obj o' = true /\ unflatten sp ls' = Ok o' /\ flatten c o' = Ok (ls', sp).
+Proof.
+  intros Hp Hwf Hf Hlen Hll. unfold flatten in Hf.
+  destruct (flat c (S (c_limit c)) o) as [[[ls0 ns] b]|] eqn:E; [|discriminate].
+  cbn [bind] in Hf. injection Hf as <- <-.
+  destruct (flat_realisable c Hp _ _ _ Hwf E ls' Hlen Hll) as (o' & Wo & Fo).
+  unfold r_ns in Fo. cbn [fst snd] in Fo.
+  assert (Hfl : flatten c o' = Ok (ls', {| trav := ns; snil := c_nil c; sns := spec_ns c b |})).
+  { unfold flatten. rewrite Fo. reflexivity. }
+  exists o'. split; [exact Wo | split; [apply (unflatten_flatten c o' _ _ Wo Hfl) | exact Hfl]].
+Qed.
